@@ -20,10 +20,10 @@ RULE = (
     "1-3 well-behaved client tasks (Redis/RabbitMQ: on 1-2 separate connections) run seeded scripts over enqueue(immediate/"
     "delayed) / start-finish consumer(category, topics) / consume / ack / nack / reject / requeue(new payload+params) / sleep, "
     "on 1-2 queues, 2 topics, 3 priorities, <=12 messages with unique ids and payloads; in part of the runs one broker call is "
-    "cancelled at a seeded step offset inside it, aimed at the n-th call of one operation (every 12th network-broker / 40th in-memory scenario of the quick tier sweeps the offset over 0..24, every 5th of the thorough tier over 0..44). After every returned call the affected id's "
+    "cancelled at a seeded step offset inside it, aimed at the n-th call of one operation (every 12th network-broker / 30th in-memory scenario of the quick tier sweeps the offset over 0..24, every 5th of the thorough tier over 0..44). After every returned call the affected id's "
     "broker-side place (read from the broker's own storage / the fake server's keyspace, not through repid) is compared with a "
     "reference lifecycle model; at the end all consumers are finished and every id must be in exactly the model's place with the "
-    "model's payload and parameters. non-trivial = at least one consume returned and one terminal action ran; distinct = "
+    "model's payload and parameters. consume() itself is among the aimed cancellation targets (cancelled 0-8 steps into the call; swept on the in-memory broker). non-trivial = at least one consume returned and one terminal action ran; distinct = "
     "interleaving digest."
 )
 SHRINK_LISTS = ("clients",)
@@ -81,8 +81,10 @@ def gen(rng, broker, tier):
         cancel = {"call": rng.randint(1, 40), "offset": rng.randint(0, 25)}
         if rng.random() < 0.6:
             # aimed at the n-th call of one operation (the two-step operations are the interesting ones)
-            cancel = {"call": 0, "op": rng.choice(["requeue", "requeue", "requeue", "reject", "ack", "nack", "enqueue"]),
+            cancel = {"call": 0, "op": rng.choice(["requeue", "requeue", "requeue", "reject", "ack", "nack", "enqueue", "consume", "consume"]),
                       "nth": rng.randint(1, 3), "offset": rng.randint(0, 25)}
+            if cancel["op"] == "consume":
+                cancel["offset"] = rng.randint(0, 8)  # a consume() that finds a message returns within a few steps
     return {"clients": clients, "queues": queues, "cancel": cancel,
             "knobs": {"step_cost": rng.choice([0, 0, 1, "rand"]),
                       "net": {"lat_lo": 50, "lat_hi": rng.choice([200, 3000, 30_000]), "frag_p": rng.choice([0, 0.2])},
@@ -319,7 +321,13 @@ async def _main(sim, sc, out):
                 if ent is None:
                     continue
                 cons, sop = ent
-                res = await consume_with_timeout(cons, op["timeout_us"] / 1e6)
+                per_op["consume"] = per_op.get("consume", 0) + 1
+                if cancel and cancel.get("op") == "consume" and cancel.get("nth") == per_op["consume"]:
+                    # the caller gives up (plain Task.cancel()) a seeded number of loop steps into the call: possibly just
+                    # after the consumer took a message and before consume() handed it over
+                    res = await _consume_cancelled_at(sim, cons, op["timeout_us"] / 1e6, sim.loop.step + 1 + cancel["offset"], stats, out)
+                else:
+                    res = await consume_with_timeout(cons, op["timeout_us"] / 1e6)
                 if res is None:
                     probe(out, "consume-timed-out")
                     dropped_now = [d_ for d_ in dropped_consume_results(rec) if d_ in model and d_ not in dropped_seen]
@@ -534,17 +542,46 @@ def shrink_candidates(sc):
         yield s2
 
 
+async def _consume_cancelled_at(sim, cons, timeout_s, at_step, stats, out):
+    box: list = []
+
+    async def runner():
+        box.append(await cons.consume())
+
+    t = asyncio.ensure_future(runner())
+
+    def do_cancel():
+        if not t.done():
+            t.cancel()
+            stats["cancelled"] += 1
+            sim.count("cancel-broker-call")
+            out["info"]["cancelled_op"] = "consume"
+
+    sim.at_step(at_step, do_cancel)
+    done, _ = await asyncio.wait({t}, timeout=timeout_s)
+    if not done:
+        t.cancel()
+    try:
+        await t
+    except asyncio.CancelledError:
+        if not t.cancelled():
+            raise
+    return box[0] if box else None
+
+
 def task(spec):
-    every = 5 if spec["tier"] == "thorough" else (40 if spec["broker"] == "mem" else 12)
+    every = 5 if spec["tier"] == "thorough" else (30 if spec["broker"] == "mem" else 12)
     if spec["idx"] % every == 3:
         # sweep the cancel offset over a whole call for this scenario: every step of the n-th call of one operation
         run_seed = kernel.derive_seed(spec["seed"], spec["pid"], spec["broker"], spec["idx"])
         rng = random.Random(kernel.derive_seed(run_seed, "workload"))
         sc = gen(rng, spec["broker"], spec["tier"])
         sc.update({"seed": run_seed, "broker": spec["broker"], "property": spec["pid"]})
-        present = sorted({o["op"] for c in sc["clients"] for o in c["ops"]} & {"requeue", "reject", "ack", "nack", "enqueue"})
+        present = sorted({o["op"] for c in sc["clients"] for o in c["ops"]} & {"requeue", "reject", "ack", "nack", "enqueue", "consume"})
         # the two-step operation (ack + enqueue on RabbitMQ, remove + add elsewhere) gets most of the sweeps
-        op = "requeue" if "requeue" in present and rng.random() < 0.7 else rng.choice(present or ["enqueue"])
+        op = "requeue" if "requeue" in present and rng.random() < 0.6 else rng.choice(present or ["enqueue"])
+        if spec["broker"] == "mem" and "consume" in present and rng.random() < 0.5:
+            op = "consume"  # (the in-memory operations have no second step; its consume() has: take, then hand over)
         sc["cancel"] = {"call": 0, "op": op, "nth": rng.randint(1, 2), "offset": 0}
         outs = []
         for off in range(0, 45 if spec["tier"] == "thorough" else 25):
